@@ -28,7 +28,7 @@ int64_t timegm(struct vtm* r){ int64_t t = unfill(r); fill(t, r); return t; }
 void* localtime_r(const int64_t* t, struct vtm* r){ fill(*t + vll_tz_offset, r); r->gmtoff = vll_tz_offset; r->zone = "LCL"; return r; }
 int64_t mktime(struct vtm* r){ int64_t t = unfill(r) - vll_tz_offset; fill(t + vll_tz_offset, r); return t; }
 
-/* strftime for the conversions quill's StringFromTime caches or passes through: %H %M %S %I %k %l %p %s %u %% and literal
+/* strftime for the conversions quill's StringFromTime caches or passes through: %H %M %S %I %k %l %p %s %u %A %% and literal
  * text (every other conversion is outside the model: reported).  Returns 0 when the buffer is too small, like libc. */
 static int put2(char* o, uint64_t max, uint64_t* n, int v, char pad){ if (*n + 2 >= max) return 0; o[(*n)++] = v < 10 ? pad : (char)('0' + v / 10); o[(*n)++] = (char)('0' + v % 10); return 1; }
 uint64_t strftime(char* out, uint64_t max, const char* fmt, const struct vtm* tm){
@@ -54,6 +54,11 @@ uint64_t strftime(char* out, uint64_t max, const char* fmt, const struct vtm* tm
       out[n + 0] = (char)('0' + hi / 10000); out[n + 1] = (char)('0' + hi / 1000 % 10); out[n + 2] = (char)('0' + hi / 100 % 10); out[n + 3] = (char)('0' + hi / 10 % 10); out[n + 4] = (char)('0' + hi % 10);
       out[n + 5] = (char)('0' + lo / 10000); out[n + 6] = (char)('0' + lo / 1000 % 10); out[n + 7] = (char)('0' + lo / 100 % 10); out[n + 8] = (char)('0' + lo / 10 % 10); out[n + 9] = (char)('0' + lo % 10);
       n += 10;
+    }
+    else if (c == 'A') {     /* full weekday name: the one VARIABLE-WIDTH conversion of the model (6..9 characters) */
+      static const char* const wd[7] = {"Sunday", "Monday", "Tuesday", "Wednesday", "Thursday", "Friday", "Saturday"};
+      const char* w = wd[tm->wday == 0 ? 0 : tm->wday == 1 ? 1 : tm->wday == 2 ? 2 : tm->wday == 3 ? 3 : tm->wday == 4 ? 4 : tm->wday == 5 ? 5 : 6];
+      for (int k = 0; k < 9 && w[k]; k++) { if (n + 1 >= max) return 0; out[n++] = w[k]; }
     }
     else if (c == 'u') { if (n + 1 >= max) return 0; out[n++] = (char)('0' + (tm->wday == 0 ? 7 : tm->wday)); }   /* ISO weekday 1..7 */
     else { vassert_at(0, 9300); return 0; }      /* conversion outside the model */
